@@ -7,7 +7,7 @@ CONSTANT Emit
 EmitHist ==
     (Emit /\ AllIdle /\ Len(hist) = MaxOps) =>
         PrintT(<<"BEHAVIOUR", ToJson([i \in 1..Len(hist) |->
-                     [t |-> hist[i].t, op |-> hist[i].op,
+                     [t |-> hist[i].t, op |-> hist[i].op, inn |-> hist[i].inn,
                       ret |-> hist[i].ret]])>>)
 
 =============================================================================
